@@ -1,6 +1,7 @@
 package main
 
 import (
+	"time"
 	"context"
 	"encoding/json"
 	"fmt"
@@ -219,6 +220,19 @@ func (st *c16st) step(op *Sexp) string {
 	case "set":
 		return bit(st.elem(a[0]).Set(a[1].Int()))
 	case "ext":
+		if st.list(a[0]) == st.list(a[1]) {
+			// a list extended with itself (open finding dt.List.Extend:self: the loop never ends): run it
+			// on the side so that the answer is "hang" rather than a stuck harness; the case ends here
+			done := make(chan struct{})
+			l := st.list(a[0])
+			go func() { defer close(done); defer func() { _ = recover() }(); l.Extend(l) }()
+			select {
+			case <-done:
+				return "ok"
+			case <-time.After(5 * time.Second):
+				return "HANG"
+			}
+		}
 		st.list(a[0]).Extend(st.list(a[1]))
 		return "ok"
 	case "copy":
